@@ -70,6 +70,27 @@ Alphabet (every case is a complete configuration; inside it every non-origin gri
              1.5, thorough: every quick model); 2-d fixed n = 3 refined 2 and 3 times (17 points per axis).
              More states than every small-integer threshold: fixed n = 601 (h = 0.002; HEM, VG; thorough: one model per
              family) and fixed n = 33 001 (h = 2e-5; quick: HEM; thorough as for 601): the complete oracle on every state.
+  narrow cells (both tiers, round 7; subs "chain1d" / "copula" / "history1d", grid spec flag "narrow", keys end in
+             :narrow-cells) CELLS NARROWER THAN 1e-8 OR THAN 1e-5 |x| - legal ("all spatial steps h", "0..k refinements") and
+             exactly what a comparison of cell edges "up to a tolerance" (np.isclose: atol 1e-8, rtol 1e-5) declares empty.
+             Small grids of every class (NARROW_GRIDS_1D): fixed-size uniform h = 1e-9 (n = 5) and h = 1e-8 (n = 7: the
+             width exactly 1e-8); the model-based uniform grid h = 1e-9 with truncation probability 0.9 (built where its
+             bounds are within 2000 h: the infinite-variation models; elsewhere counted outside-alphabet-grid); geometric
+             from the model's bounds h = 1e-9 (30 per side, the research scripts' grid with a smaller h); geometric with
+             bounds h = 1e-9 / 2e-9; probability step h = 1e-9 / 1e-8; credit with the threshold a relative 1e-6 inside the
+             left truncation / beyond -h (h = 0.1 and the credit benchmarks' h0 = 1e-6): states a -+ eps closer than
+             1e-6 |a|; base-class constructor with clusters of states 1e-6 apart at |x| = 0.1, 0.3, 0.5, 1 (a uniform grid
+             with h = 1e-6 away from the origin without its 10^6 states); thorough: six more (h = 3e-9, 5e-9, 1e-8, delta
+             1e-7, clusters at |x| = 1). x one model per family / activity class and its re-initialised twin (thorough:
+             every model + twin) x k = 0..1 (thorough 0..2) refinements x every sampling method: the complete oracle
+             (rates of every route / sampler table against the density quadrature on the reference cell, tiling, sums =
+             reported intensity = quadrature total, truncation probes). Copula (NARROW_GRIDS_ND): fixed h = 1e-9 / 1e-8,
+             geometric with bounds h = 1e-9, custom clusters, both credit thresholds, every tuple of margins (quick: first
+             copula), k = 0..1 in 2-d, fixed grids in 3-d. Histories: one used grid refined twice, next_level and the
+             engine's deep-copied levels on a geometric-with-bounds h = 1e-9 grid and on a cluster grid.
+             Tolerance of the regime: RELATIVE 1e-9 of the rate + 64 ulp of T, T = un-truncated mass beyond the central
+             cell on the larger side (quadrature; the closed forms are differences of tail integrals of that magnitude, which
+             exceeds the chain's own intensity by 10^7 on a support a few h wide) - no term proportional to lambda.
   copula-large (both tiers) 2-d fixed grids with 513 and 5001 points per axis (index > 255; 2 x 5001 > 10 000 = the
              threshold under which BinarySearchTreeAdapted pre-computes the states of the axes - the branch of
              _pre_computation no smaller grid enters). Stated sub-lattice: the states whose index on every axis is one of the
@@ -166,7 +187,8 @@ Outside the alphabet: the origin state (no rate); the Black-Scholes family (no j
 modified WITHOUT initialisation() or modified while a model built on them is in use (the library never does it); grids whose axes are not strictly increasing with 0 at the origin index
 (property C13); credit thresholds not strictly between the left truncation and -h; sampling methods a constructor does not
 accept (BINARYSEARCHTREEADAPTED in 1-d: KeyError; the q-vector methods and BINARYSEARCHTREEADAPTED1D for copulas:
-ValueError / TypeError); h below 0.1 / 2^6 (2e-5 on the largest fixed grid), dimension > 3, the 3-d joint density; where
+ValueError / TypeError); h below 1e-9; uniform model-based grids with a tiny step and more than 2000 states per half axis
+(10^6 .. 10^9 states; the cluster grids stand for their far cells), dimension > 3, the 3-d joint density; where
 refine() puts the new states (C13); what the samplers do with the rates (C02); one-sided measures (no model of the library has
 one: the `left == 0` / `right == 0` branches of create_sampling_method are unreachable); grids built from a
 LevyDrivenSDEModel (C16).
@@ -174,7 +196,7 @@ LevyDrivenSDEModel (C16).
 Tolerances. Routes that repeat the same closed-form call: rtol 1e-12 + 1e-15 lambda. Closed form against quadrature of the
 density: rtol 1e-9 + 1e-13 lambda + the quadrature's own error estimate (skipped and counted oracle_inconclusive when that
 estimate exceeds 1e-10 relative) + 1.5 x density x (boundary tolerance of (i)) for each of the two boundaries.
-Sums: rtol 1e-9. Non-negativity: 64 ulp of lambda (1-d: a rate is a difference of two tail masses <= lambda); copula:
+Sums: rtol 1e-9 (narrow regime: + 16 ulp of T per state). Non-negativity: 64 ulp of lambda (1-d: a rate is a difference of two tail masses <= lambda); copula:
 1e-13 S with S = the largest marginal tail integral at an end point of a non-straddling coordinate (every copula value of
 the signed sum is bounded by it). Copula mass against reference mass: 1e-12 S + 1e-9 relative (as in C12).
 Joint density: rtol 1e-8 + 1e-12 min_i max(|U_i(a_i)|, |U_i(b_i)|), compared only when the nested quadrature's own estimate
@@ -285,9 +307,29 @@ def cases(tier):
         for m in (quick_twins if thorough else rep_twins):
             if m["via"] == "cycled":  # the calibration route proper, unrefined grids
                 out.append({"sub": "chain1d", "model": m, "grid": dict(g, refine=0)})
+    # ---- narrow cells (round 7): cells narrower than 1e-8 (tiny h next to the origin) or than 1e-5 |x| (fine clusters far
+    # from the origin, thresholds a relative 1e-6 away from a bound): every grid class on small grids, one model per family /
+    # activity class and its re-initialised twin (thorough: every model), unrefined and refined; the complete oracle
+    narrow_models = models if thorough else [mm for m in rep for mm in (m, dict(m, via="reinit"))]
+    for g in NARROW_GRIDS_1D + (NARROW_GRIDS_1D_THOROUGH if thorough else []):
+        for k in ((0, 1, 2) if thorough else (0, 1)):
+            for m in narrow_models:
+                out.append({"sub": "chain1d", "model": m, "grid": dict(g, refine=k, narrow=True)})
     # ---- copula chains
     cm = A.copula_model_specs(tier)
     cm = sorted(cm, key=lambda s: len(s["margins"]))
+    # narrow cells in 2-d and 3-d: every tuple of margins (quick: under the first copula of the menu)
+    seen_margins = set()
+    for spec in cm:
+        key = tuple(spec["margins"])
+        if not thorough and key in seen_margins:
+            continue
+        seen_margins.add(key)
+        for g in NARROW_GRIDS_ND:
+            if len(key) == 3 and g["kind"] != "fixed":
+                continue
+            for k in ((0,) if len(key) == 3 else (0, 1)):
+                out.append({"sub": "copula", "model": spec, "exp": False, "grid": dict(g, refine=k, narrow=True)})
     for k in range(2):
         for spec in cm:
             d = len(spec["margins"])
@@ -340,6 +382,15 @@ def cases(tier):
         for m in rep_twins:
             for meth in (["ALIAS", "BINARYSEARCHTREEADAPTED1D"] if m["via"] == "reinit" else ["INVERSION"]):
                 out.append({"sub": "history1d", "via": "next_level", "method": meth, "model": m, "grid": dict(g, refine=0), "depth": 2})
+    # narrow cells on ONE grid object (use, refine, use) and through next_level / the engine's deep-copied levels
+    for g in NARROW_HISTORY_GRIDS_1D:
+        g = dict(g, refine=0, narrow=True)
+        for m in rep:
+            out.append({"sub": "history1d", "via": "direct", "model": m, "grid": g, "depth": 2})
+        for m in (rep if thorough else rep[:1] + rep[3:5]):
+            for meth in (METHODS_1D if thorough else ["ALIAS", "INVERSION", "BINARYSEARCHTREEADAPTED1D"]):
+                out.append({"sub": "history1d", "via": "next_level", "method": meth, "model": m, "grid": g, "depth": 2})
+            out.append({"sub": "history1d", "via": "engine-levels", "method": "BINARYSEARCHTREEADAPTED1D", "model": m, "grid": g, "depth": 2})
     # the route of the adaptive multilevel engine: the coupling of level l is a DEEP COPY of the coupling of level l-1 on
     # which next_level is called, the couplings of all levels stay in use; a dill round trip of every level (what the
     # pool branch of the engines hands to its workers) must carry the same chain
@@ -429,6 +480,52 @@ BIG_JUMP_PARAMS = {
     "cgmy": {"c": 0.5, "g": 1.0, "m": 1.5, "y": 0.7},
 }
 
+# narrow cells: cells narrower than 1e-8 or than 1e-5 |x| (a comparison of cell edges "up to a tolerance" - np.isclose has
+# atol 1e-8, rtol 1e-5 - treats them as empty). Small grids of every class, so that the cost stays low:
+#   tiny spatial steps (h = 1e-9 .. 1e-8: the research scripts use geometric grids with h = 1e-7 / 1e-6) on the fixed-size
+#   uniform, geometric (model bounds / user bounds), probability-step grids and on the model-based uniform grid with a
+#   low truncation probability (few points; outside the alphabet - counted - where the bound is further than "max_points" h);
+#   the width exactly 1e-8 (fixed, h = 1e-8);
+#   clusters of states 1e-6 apart at |x| = 0.1 .. 1 (base-class constructor; what a uniform grid with h = 1e-6 - the h0 of the
+#   credit benchmarks - looks like away from the origin, without its 10^6 states);
+#   credit grids whose threshold is a relative 1e-6 inside the left truncation / beyond -h (states a -+ eps 1e-6 |a| apart).
+_C = 1e-6
+NARROW_GRIDS_1D = [
+    {"kind": "fixed", "h": 1e-9, "n": 5},
+    {"kind": "fixed", "h": 1e-8, "n": 7},
+    {"kind": "uniform", "h": 1e-9, "p": 0.9, "max_points": 2000},
+    {"kind": "geometric", "h": 1e-9, "n_side": 30, "p": 0.99999},
+    {"kind": "geometric-bounds", "h": 1e-9, "bounds": [-0.5, 0.4], "n_side": 25},
+    {"kind": "geometric-bounds", "h": 2e-9, "bounds": [-1.0, 0.8], "n_side": 20},
+    {"kind": "probability", "h": 1e-9, "pmin": 0.2},
+    {"kind": "probability", "h": 1e-8, "pmin": 0.05},
+    {"kind": "credit", "h": 0.1, "a_near": "truncation", "delta": 1e-6, "symmetric": True},
+    {"kind": "credit", "h": 0.1, "a_near": "h", "delta": 1e-6, "symmetric": True},
+    {"kind": "credit", "h": 1e-6, "a_near": "h", "delta": 1e-6, "symmetric": True},
+    {"kind": "custom", "h": 0.1, "points": [[-0.5, -2 * _C], [-0.5, -_C], -0.5, [-0.5, _C], -0.1, 0.0, 0.1, 0.3, [0.3, _C], [0.3, 2 * _C]]},
+    {"kind": "custom", "h": 1e-6, "points": [[-1.0, -_C], -1.0, [-1.0, _C], -0.1, -1e-6, 0.0, 1e-6, 2e-6, 0.1, [0.1, _C], [0.1, 2 * _C]]},
+]
+NARROW_GRIDS_1D_THOROUGH = [
+    {"kind": "fixed", "h": 3e-9, "n": 9},
+    {"kind": "uniform", "h": 1e-8, "p": 0.99, "max_points": 2000},
+    {"kind": "geometric", "h": 1e-8, "n_side": 12, "p": 0.999},
+    {"kind": "geometric-bounds", "h": 5e-9, "bounds": [-0.7, 0.4], "n_side": 40},
+    {"kind": "credit", "h": 1e-6, "a_near": "truncation", "delta": 1e-7, "symmetric": True},
+    {"kind": "custom", "h": 0.1, "points": [[-1.0, -3e-6], -1.0, -0.1, 0.0, 0.1, 1.0, [1.0, 3e-6], [1.0, 9e-6]]},
+]
+NARROW_HISTORY_GRIDS_1D = [
+    {"kind": "geometric-bounds", "h": 1e-9, "bounds": [-0.5, 0.4], "n_side": 12},
+    {"kind": "custom", "h": 0.1, "points": [[-0.5, -_C], -0.5, [-0.5, _C], -0.1, 0.0, 0.1, 0.3, [0.3, _C]]},
+]
+NARROW_GRIDS_ND = [
+    {"kind": "fixed", "h": 1e-9, "n": 5},
+    {"kind": "fixed", "h": 1e-8, "n": 3},
+    {"kind": "geometric-bounds", "h": 1e-9, "bounds": [-0.5, 0.4], "n_side": 4},
+    {"kind": "custom", "h": 0.1, "points": [[-0.5, -_C], -0.5, -0.1, 0.0, 0.1, 0.3, [0.3, _C]]},
+    {"kind": "credit", "h": 0.1, "a_near": "h", "delta": 1e-6, "symmetric": False},
+    {"kind": "credit", "h": 0.1, "a_near": "truncation", "delta": 1e-6, "symmetric": True},
+]
+
 # one state on a half axis: the uniform grid when the truncation bound is closer to the origin than h (the constructor then
 # moves the bound out to h), the base-class constructor CTMCGrid(h, origin_coordinate, axes) with one state on one side
 DEGENERATE_GRIDS_1D = [
@@ -441,11 +538,35 @@ DEGENERATE_GRIDS_1D = [
 def _make_grid(gspec, model, dimension=1):
     """A.make_grid, plus the kind "custom": the base-class constructor CTMCGrid(h, origin_coordinate, axes) - the one every
     other constructor ends in and compute_truncation_helper uses directly - with the states mult[i] * h on every axis"""
-    if gspec["kind"] != "custom":
-        return A.make_grid(gspec, model, dimension)
     from rpylib.grid import spatial as S
 
+    if gspec["kind"] == "credit" and "a_near" in gspec:
+        # credit grid whose threshold sits just inside the left truncation (a = l (1 - delta)) or just beyond -h
+        # (a = -h (1 + delta)): the states a - eps, a + eps and their neighbour are closer than delta |a|
+        h = gspec["h"]
+        l, _r = S.compute_truncation(model=model, h=h)
+        a = float(l * (1.0 - gspec["delta"])) if gspec["a_near"] == "truncation" else float(-h * (1.0 + gspec["delta"]))
+        if not (l < a < -h):
+            raise A.OutsideAlphabet(f"credit threshold {a} not strictly inside ({l}, {-h})")
+        g = S.CTMCCredit(h=h, level_a=a if dimension == 1 else [a] * dimension, model=model, symmetric_grid=gspec.get("symmetric", True))
+        for _ in range(gspec.get("refine", 0)):
+            g.refine()
+        return g
+    if gspec["kind"] == "uniform" and "max_points" in gspec:
+        # model-based uniform grid with a tiny step: built only where its bounds are within max_points steps of the origin
+        l, r = S.compute_truncation(model=model, h=gspec["h"], truncation_probability=gspec["p"])
+        if not (max(abs(l), abs(r)) <= gspec["max_points"] * gspec["h"]):
+            raise A.OutsideAlphabet(f"uniform grid with h = {gspec['h']} would need more than {gspec['max_points']} states per half axis")
+    if gspec["kind"] != "custom":
+        return A.make_grid(gspec, model, dimension)
     h = gspec["h"]
+    if "points" in gspec:  # the states themselves: [base, offset] pairs stand for base + offset (clusters far from 0)
+        pts = [float(p[0]) + float(p[1]) if isinstance(p, (list, tuple)) else float(p) for p in gspec["points"]]
+        axis = np.array(pts, dtype=float)
+        g = S.CTMCGrid(h=h, origin_coordinate=pts.index(0.0), axes=[axis.copy() for _ in range(dimension)] if dimension > 1 else [axis])
+        for _ in range(gspec.get("refine", 0)):
+            g.refine()
+        return g
     axis = np.array([float(m) * h for m in gspec["mult"]], dtype=float)
     g = S.CTMCGrid(h=h, origin_coordinate=gspec["mult"].index(0), axes=[axis] * dimension)
     for _ in range(gspec.get("refine", 0)):
@@ -872,7 +993,7 @@ def _central_cell_is_h(sh, tag, grid, centrals):
 def _chain1d(sh, case):
     gk = case["grid"]["kind"]
     fam = _family_class(case["model"])
-    tag = f"{gk}:{fam}"
+    tag = f"{gk}:{fam}" + (":narrow-cells" if case["grid"].get("narrow") else "")
     model = _make_model(case["model"])
     try:
         grid = _make_grid(case["grid"], model, 1)
@@ -990,6 +1111,23 @@ def _oracle_1d(sh, case, model, grid, tag, given=None, given_vectors=None, refin
             else:
                 bounds_ok[j] = False
     mshift = [1.5 * btol[j] * dens_at_bound[j] for j in range(n + 1)]
+    # narrow-cell regime (cells narrower than 1e-8 or than 1e-5 |x|: tiny h, clusters far from the origin): the closed
+    # forms are differences of TAIL integrals of the un-truncated measure, whose magnitude T (mass beyond the central cell
+    # on that side, up to the model's whole intensity) can exceed the chain's intensity by many orders when the support is
+    # a few h wide; such a difference legitimately carries a few ulp of T. Everything else stays RELATIVE to the rate.
+    narrow = bool(case["grid"].get("narrow"))
+    tail_slack = 0.0
+    if narrow:
+        tails = [_quad_cell(nu0, -INF, bounds[o])[0], _quad_cell(nu0, bounds[o + 1], INF)[0]]
+        tails = [t for t in tails if math.isfinite(t) and t > 0.0]
+        tail_slack = 64 * EPS * max(tails + [lam_ref])
+        sh.cls("regime:narrow-cells")
+        widths = [bounds[k + 1] - bounds[k] for k in idx]
+        if any(w <= 1e-8 for w in widths):
+            sh.cls("narrow:cell-narrower-than-1e-8")
+        if any(w <= 1e-5 * min(abs(bounds[k]), abs(bounds[k + 1])) and w > 1e-8 for k, w in zip(idx, widths)):
+            sh.cls("narrow:cell-narrower-than-1e-5-of-its-abscissa")
+    sum_slack = tail_slack * n / 4
 
     # ---- build a process per method
     procs = dict(given or {})
@@ -1103,7 +1241,7 @@ def _oracle_1d(sh, case, model, grid, tag, given=None, given_vectors=None, refin
             want = sum(quad[k] for k in idx if k < o)
             sh.count("evaluations")
             tol_extra = sum(qerr[k] for k in idx if k < o)
-            if not core.close(float(pl) * lam_t, want, rtol=1e-9, atol=1e-13 * lam + tol_extra):
+            if not core.close(float(pl) * lam_t, want, rtol=1e-9, atol=1e-13 * lam + tol_extra + sum_slack):
                 sh.violation(f"C01:rates:adapted-tree-1d:left-axis-probability-differs-from-density-integral:{tag}",
                              f"_proba_left_axis*lambda = {float(pl) * lam_t!r}, integral of the density over the left cells = {want!r}",
                              {"observed": float(pl) * lam_t, "expected": want})
@@ -1159,7 +1297,7 @@ def _oracle_1d(sh, case, model, grid, tag, given=None, given_vectors=None, refin
             shift = mshift[k] + mshift[k + 1]
             want = quad[k]
             compared += 1
-            if not core.close(v, want, rtol=1e-9, atol=1e-13 * lam + qerr[k] + shift):
+            if not core.close(v, want, rtol=1e-9, atol=(0.0 if narrow else 1e-13 * lam) + tail_slack + qerr[k] + shift):
                 sh.violation(f"C01:rates:{name}:differs-from-density-integral-over-the-cell:{edge}:{tag}",
                              f"state {k} x={axis[k]!r} cell ({bounds[k]!r}, {bounds[k + 1]!r}): rate {v!r}, quadrature of the density {want!r} (+- {qerr[k]:.1e})",
                              {"k": k, "x": axis[k], "cell": [bounds[k], bounds[k + 1]], "rate": v, "quadrature": want, "clipped_at_zero": clipped})
@@ -1201,13 +1339,13 @@ def _oracle_1d(sh, case, model, grid, tag, given=None, given_vectors=None, refin
     for name, r in routes.items():
         sh.count("evaluations")
         tot = sum(max(v, 0.0) for v in r.values()) if name == "inversion" else sum(r.values())
-        if not core.close(tot, lam, rtol=1e-9):
+        if not core.close(tot, lam, rtol=1e-9, atol=sum_slack):
             sh.violation(f"C01:sum:{name}:sum-of-rates-differs-from-intensity:{tag}", f"sum of rates {tot!r}, intensity_of_jumps {lam!r}",
                          {"sum": tot, "intensity": lam})
     sh.count("evaluations")
     tot_err = sum(qerr.values())
     if tot_err <= 1e-10 * lam_ref:
-        if not core.close(lam, lam_ref, rtol=1e-9, atol=tot_err):
+        if not core.close(lam, lam_ref, rtol=1e-9, atol=tot_err + sum_slack):
             sh.violation(f"C01:intensity:process:differs-from-density-integral-outside-the-central-cell:{tag}",
                          f"intensity_of_jumps {lam!r}, quadrature of the density over [{bounds[0]!r},{bounds[o]!r}] and [{bounds[o + 1]!r},{bounds[n]!r}] = {lam_ref!r}",
                          {"intensity": lam, "quadrature": lam_ref})
@@ -1238,7 +1376,7 @@ def _oracle_1d(sh, case, model, grid, tag, given=None, given_vectors=None, refin
         except Exception as e:  # noqa
             sh.violation(f"C01:truncation:model.mass:raises-{type(e).__name__}:{label}:{tag}", f"mass({a!r}, {b!r}): {e!r}"[:300], None)
             continue
-        if not core.close(got, want, rtol=1e-9, atol=1e-13 * lam + err):
+        if not core.close(got, want, rtol=1e-9, atol=1e-13 * lam + err + sum_slack):
             sh.violation(f"C01:truncation:model.mass:not-the-mass-of-the-measure-restricted-to-the-grid-bounds:{label}:{tag}",
                          f"mass({a!r}, {b!r}) of the process's model = {got!r}; density restricted to [{L!r}, {R!r}] integrates to {want!r}",
                          {"a": a, "b": b, "observed": got, "expected": want, "bounds": [L, R]})
@@ -1328,7 +1466,7 @@ def _copula(sh, case):
     gk = case["grid"]["kind"]
     ck = _copula_class(case["model"])
     d = len(case["model"]["margins"])
-    tag = f"{gk}:d={d}:{ck}"
+    tag = f"{gk}:d={d}:{ck}" + (":narrow-cells" if case["grid"].get("narrow") else "")
     try:
         ctx = _CopulaCtx(sh, case)
     except A.OutsideAlphabet:
@@ -1398,6 +1536,9 @@ def _oracle_nd(sh, case, ctx, tag, given=None, refine=None, keep=None):
     grid, model = ctx.grid, ctx.model
     _central_cell_is_h(sh, tag, grid, [(bs[o], bs[o + 1]) for bs, o in zip(ctx.bounds, ctx.orig)])
     sh.cls(f"grid:{gk}:d={d}")
+    if case["grid"].get("narrow") and any(bs[k + 1] - bs[k] <= 1e-8 + 1e-5 * min(abs(bs[k]), abs(bs[k + 1]))
+                                          for bs, o in zip(ctx.bounds, ctx.orig) for k in range(len(bs) - 1) if k != o):
+        sh.cls(f"regime:narrow-cells:d={d}")
     sh.cls(f"copula:{ck}:d={d}")
     sh.cls(f"refine:{refine}:d={d}")
     sh.cls("margins:" + "+".join(case["model"]["margins"]) + (":exp" if case.get("exp") else ""))
@@ -2884,6 +3025,8 @@ REQUIRED_CLASSES = (
        "route:reinit:copula:d=2", "route:reinit:copula:d=3",
        "grid:custom", "grid:custom:d=2", "size:one-state-on-one-half-axis", "size:more-than-256-states", "size:more-than-32768-states",
        "refine:4", "refine:5", "refine:6", "refine:2:d=2", "refine:3:d=2", "large:2d:513", "large:2d:5001",
+       "regime:narrow-cells", "narrow:cell-narrower-than-1e-8", "narrow:cell-narrower-than-1e-5-of-its-abscissa",
+       "regime:narrow-cells:d=2", "regime:narrow-cells:d=3",
        "forms:1d", "forms:2d", "forms:3d", "copies:copy", "copies:deepcopy", "copies:dill",
        "form:int", "form:numpy-float", "form:numpy-int", "form:positional", "form:list", "form:float-array", "form:int-array"]
     + [f"route:{v}:{f}" for f in ("hem", "merton", "vg", "cgmy") for v in ("reinit", "cycled")]
